@@ -177,6 +177,15 @@ func init() {
 		}
 		return nil
 	})
+	// JSONText(x): the JSON text of x (natively json.Marshal); symbolically an opaque text that the
+	// encoding/json model can decode again and that is compared structurally
+	v("JSONText", func(ex *Exec, c *frame, fn *ssa.Function, a []Value) Value {
+		v, failed := ex.jsonEncodeValue(a[0], c, 0)
+		if failed != "" {
+			panic(pathEnd{"pruned"}) // not serialisable: outside the harness' quantifier
+		}
+		return &EncStr{v: v}
+	})
 	v("NoOrderLemma", func(ex *Exec, c *frame, fn *ssa.Function, a []Value) Value {
 		ex.noOrderLemma = a[0].(bool)
 		return nil
